@@ -29,6 +29,7 @@ NODE = ast.Constant(value=0)
 NODE.lineno = 0
 I3 = [[1, 0, 0], [0, 1, 0], [0, 0, 1]]
 ERR = (Fraction(1, 10 ** 9), Fraction(1, 10 ** 6))       # magnitude of an accumulated rounding error of a tabulated third
+ERR_ENDS = ((Fraction(9, 10 ** 7), Fraction(1, 10 ** 6)), (Fraction(1, 10 ** 9), Fraction(2, 10 ** 9)))   # its two ends (a tolerance test is monotone in it)
 
 
 def rc(x):
@@ -44,9 +45,11 @@ class Session:
         self.bounds = dict(bounds or {})
         self.sg_calls = []
         self.tolerances = []
+        self.relative_guards = []
         self.ev = ObjEvaluator(mod, inline=set(), import_policy=self.ipol, max_depth=10)
         self.ev.threshold_policy = self.threshold
         self.ev.threshold_max = Fraction(1, 2)          # any literal a distance to the lattice is compared with
+        self.ev.close_policy = self.close
         self.sgmod = core.module("xfab/sg.py")
         self._sgconst = {}
 
@@ -87,6 +90,30 @@ class Session:
             return False
         raise AnalysisError("tolerance comparison undecided on the abstract input: [%.3g, %.3g] against %g" % (float(lo), float(hi), float(t)))
 
+    def close(self, guard):
+        """numpy.allclose(a, b): every |a - b| <= atol + rtol*|b|, decided in the interval domain"""
+        if guard["pairs"] is None:
+            raise AnalysisError("allclose on values that are not explicit (%s)" % guard["text"])
+        self.tolerances.append((float(max(guard["rtol"], guard["atol"])), NODE))
+        self.relative_guards.append(guard)
+        verdict = True
+        for a, b in guard["pairs"]:
+            try:
+                dlo, dhi = ieval(a - b, self.bounds)
+                blo, bhi = ieval(b, self.bounds)
+            except Unbounded as e:
+                raise AnalysisError("allclose cannot be enclosed on the abstract input: %s" % e)
+            dmax, dmin = max(abs(dlo), abs(dhi)), (0 if dlo <= 0 <= dhi else min(abs(dlo), abs(dhi)))
+            bmin, bmax = (0 if blo <= 0 <= bhi else min(abs(blo), abs(bhi))), max(abs(blo), abs(bhi))
+            if dmax <= guard["atol"] + guard["rtol"] * bmin:
+                continue                      # certainly close
+            if dmin > guard["atol"] + guard["rtol"] * bmax:
+                verdict = False               # certainly not close
+                continue
+            raise AnalysisError("allclose undecided on the abstract input: |a-b| in [%.3g, %.3g] against atol=%g + rtol=%g*|b|, |b| in [%.3g, %.3g]"
+                                % (float(dmin), float(dmax), float(guard["atol"]), float(guard["rtol"]), float(bmin), float(bmax)))
+        return verdict
+
     def call(self, position, **kw):
         try:
             out = self.ev.call_function("multiplicity", [Arr([rc(x) for x in position])], dict(kw))
@@ -125,16 +152,19 @@ def run(ctx):
     pos_bounds = {"x0": (Fraction(11, 100), Fraction(12, 100)), "x1": (Fraction(27, 100), Fraction(28, 100)), "x2": (Fraction(6, 100), Fraction(7, 100))}
     tolerances = []
     # ---- lattice predicate: 64 patterns
-    miss, extra = [], []
-    for pat in itertools.product("0+-f", repeat=3):
+    miss, extra, relative = [], [], False
+    # (the integer part of the difference is 1, -2, 3 or 0, 0, 0: the images lie in different cells or in the same cell)
+    for pat, cells, err in itertools.product(itertools.product("0+-f", repeat=3), ((1, -2, 3), (0, 0, 0)), ERR_ENDS):
+        if err is not ERR_ENDS[0] and not any(d in "+-" for d in pat):
+            continue
         bounds = dict(pos_bounds)
         v = []
         for c, d in enumerate(pat):
-            base = Rat.const((1, -2, 3)[c])
+            base = Rat.const(cells[c])
             if d == "0":
                 v.append(base)
             elif d in "+-":
-                bounds["e%d" % c] = ERR
+                bounds["e%d" % c] = err
                 v.append(base + Rat.atom("e%d" % c) * (1 if d == "+" else -1))
             else:
                 bounds["f%d" % c] = (Fraction(3, 10), Fraction(4, 10))
@@ -145,17 +175,22 @@ def run(ctx):
         want = 2 if "f" in pat else 1
         if kind != "ok":
             raise AnalysisError("multiplicity raises %s on a two-operation model group" % got)
-        if got != want:
-            (extra if "f" in pat else miss).append(pat)
+        if got != want and (pat, cells) not in miss and (pat, cells) not in extra:
+            (extra if "f" in pat else miss).append((pat, cells))
+            relative = relative or bool(s.relative_guards)
     msg = ""
     if miss:
+        same_cell_only = all(c_ == (0, 0, 0) for _p, c_ in miss)
         msg = ("equal-modulo-lattice images are NOT identified when a component of the difference is %s "
-               "(%d of 27 near-integer patterns fail): the distance to the lattice is one-sided"
-               % ("an integer minus a rounding error" if any("-" in p for p in miss) else "near an integer", len(miss)))
+               "(%d of 54 near-integer patterns fail)%s"
+               % ("an integer minus a rounding error" if any("-" in p for p, _c in miss) else "near an integer", len(miss),
+                  ": only when the two images lie in the same cell -- the tolerance is relative to the lattice shift (allclose: 1e-8 "
+                  "absolute at shift 0), narrower than the 1e-6 rounding of tabulated thirds" if same_cell_only and relative
+                  else ": the distance to the lattice is one-sided"))
     if extra:
         msg += " distinct images are identified for %d patterns with a fractional component" % len(extra)
     ctx.check(not miss and not extra, "C15:lattice:multiplicity", msg, where,
-              sample={"patterns": 64, "near_integer_accepted": 27 - len(miss), "fraction_rejected": 37 - len(extra)})
+              sample={"patterns": 128, "near_integer_accepted": 54 - len(miss), "fraction_rejected": 74 - len(extra)})
     # ---- counting loop: all partitions of four images
     bad, fnotes = [], []
     for part in partitions(4):
